@@ -35,7 +35,7 @@ ASSUMPTIONS = [
     "a merged command may replace two commands only if no other command lies on a dependency path between them",
 ]
 REQUIRED_MONITORS = ["merge:returned", "merge:composition-checked", "optimize:accounting", "optimize:net-action",
-                     "optimize:execution", "immutability", "pair-sweep"]
+                     "optimize:execution", "immutability", "pair-sweep", "merge:measured-dependencies"]
 
 ONE_GATES = ["Dgate", "Xgate", "Zgate", "Sgate", "Rgate", "Pgate", "Kgate", "Vgate", "Fouriergate"]
 TWO_GATES = ["BSgate", "S2gate", "CXgate", "CZgate", "CKgate", "MZgate", "sMZgate"]
@@ -155,6 +155,21 @@ class Ctx:
         if (op_snapshot(a), op_snapshot(b)) != snap:
             rep.violation(an + ".merge", "modifies-operand", "merge changed one of its operands: %s / %s" % (
                 describe(a), describe(b)), case)
+        if r is not None:
+            # the merged operation must depend on every measurement its parameters depend on (the optimizer and the
+            # DAG conversions order commands by Command.get_dependencies, which reads Operation.measurement_deps)
+            need = set()
+            for x in r.p:
+                for v in (x.ravel() if isinstance(x, np.ndarray) and x.dtype == object else [x]):
+                    if isinstance(v, self.sympy.Basic):
+                        need |= {sym.regref.ind for sym in v.free_symbols if hasattr(sym, "regref")}
+            if need:
+                rep.monitor("merge:measured-dependencies")
+                have = {q.ind for q in r.measurement_deps}
+                if not need <= have:
+                    rep.violation(an + ".merge", "measured-dependency-lost", "%s merged with %s gives %s, whose parameters depend on "
+                                  "measurements of subsystems %s but whose measurement_deps are %s" % (
+                                      describe(a), describe(b), describe(r), sorted(need), sorted(have)), case)
         if isinstance(a, self.ops.Measurement) or isinstance(b, self.ops.Measurement):
             rep.violation(an + ".merge", "merges-measurement", "a measurement was merged: %s, %s -> %s" % (
                 describe(a), describe(b), describe(r)), case)
@@ -625,6 +640,35 @@ def pair_sweep(ctx, rep, rng):
                                                                          str(e)[:120]), ctx.case)
 
 
+def measured_merge_sweep(ctx, rep, rng):
+    """Direct merges in which only one operand (or each operand differently) depends on a measurement."""
+    ops, sf = ctx.ops, ctx.sf
+    for name in ONE_GATES + TWO_GATES + CHANNELS:
+        if NARGS.get(name, 0) < 1 or name in ("MSgate", "Fouriergate"):
+            continue
+        for variant in range(4):
+            prog = sf.Program(4)
+            with prog.context as q:
+                ops.MeasureX | q[2]
+                ops.MeasureP | q[3]
+                tail = [0.4, 1.2, 0.9][: NARGS[name] - 1]
+                chan = name in CHANNELS
+                num = 0.6 if chan else 0.3
+                m2 = (0.5 + 0.1 * sf.math.sin(q[2].par)) if chan else 0.7 * q[2].par
+                m3 = (0.5 + 0.1 * sf.math.cos(q[3].par)) if chan else -0.2 * q[3].par
+                a, b = [(num, m2), (m2, num), (m2, m3), (m3, m2)][variant]
+                A, B = getattr(ops, name)(a, *tail), getattr(ops, name)(b, *tail)
+            ctx.case = {"measured-merge": [name, variant]}
+            rep.monitor("measured-merge-sweep")
+            try:
+                A.merge(B)
+            except ctx.pu.MergeFailure:
+                pass
+            except Exception as e:
+                rep.violation(name + ".merge", "exception:" + type(e).__name__, "%s.merge(%s) raised %s: %s" % (
+                    describe(A), describe(B), type(e).__name__, str(e)[:120]), ctx.case)
+
+
 def plan(tier, seed, scale=1.0):
     n = int((500 if tier == "quick" else 9000) * scale)
     return [{"n": n, "timeout": 6000, "sweep": i == 0} for i in range(16)]
@@ -635,6 +679,10 @@ def run_shard(shard, rep):
     rng = np.random.default_rng([shard["seed"], shard["id"], 3])
     if shard.get("sweep"):
         pair_sweep(ctx, rep, rng)
+        try:
+            measured_merge_sweep(ctx, rep, rng)
+        except Exception as e:
+            rep.error("measured_merge_sweep", e)
     else:
         rep.monitor("pair-sweep", 0)
     for i in range(shard["n"]):
